@@ -21,13 +21,13 @@ noncomputable def ppf (θ y v : ℝ) : ℝ :=
 /-! ### bridges: generated definition = spec -/
 
 theorem bridge_hRow (θ u v : ℝ) : Gen.Clayton.hRow θ u v = h θ u v := by
-  simp [Gen.Clayton.hRow, h]
+  bridge [Gen.Clayton.hRow, h]
 
 theorem bridge_pdfRow (θ u v : ℝ) : Gen.Clayton.pdfRow θ u v = c θ u v := by
-  simp [Gen.Clayton.pdfRow, c]
+  bridge [Gen.Clayton.pdfRow, c]
 
 theorem bridge_ppfRow (θ y v : ℝ) : Gen.Clayton.ppfRow θ y v = ppf θ y v := by
-  simp [Gen.Clayton.ppfRow, ppf]
+  bridge [Gen.Clayton.ppfRow, ppf]
 
 /-! ### C07: derivatives -/
 
